@@ -41,6 +41,40 @@ def tblRstrip (emp : Nat → Bool) (t : Tbl) : Tbl :=
   let cols' := if colW > maxW then trimCols t.cols.runs (colW - maxW) else t.cols.runs
   { cols := fresh cols', rows := fresh rows2 }
 
+/-! ### `Table.optimize_width()` (run-length level only: what it removes depends on the encoding — only a trailing REPEATED
+    empty cell element is shortened — so it has no grid-level spec) -/
+
+/-- `_optimize_width_trim_rows`: of the trailing row ELEMENTS that are empty (`is_empty(aggressive=False)`) all but the
+    first are deleted, and the one that is kept counts once (`_set_repeated(None)`) -/
+def trimRowsOpt (rows : Runs RowD) : Runs RowD :=
+  let kept := rstripList (fun (r : RowD × Nat) => r.1.all (fun c => empOf false c.1)) rows
+  match rows.drop kept.length with
+  | [] => rows
+  | (d, _) :: _ => kept ++ [(d, 1)]
+
+/-- `Row.minimized_width()`: the width of the row if its last cell element, when empty (`aggressive=True`), counted once;
+    1 for a row without cells -/
+def minimizedWidth (d : RowD) : Nat :=
+  match d.getLast? with
+  | none => 1
+  | some (c, n) => if empOf true c then total d - n + 1 else total d
+
+/-- `Row.force_width(width)`: an empty (`aggressive=True`) last cell element that carries a repeat attribute is shortened so
+    that the row is `width` wide -/
+def forceWidth (w : Nat) (d : RowD) : RowD :=
+  match d.getLast? with
+  | none => d
+  | some (c, n) =>
+    if empOf true c ∧ n ≥ 2 ∧ total d > w then d.dropLast ++ [(c, n - (total d - w))] else d
+
+def tblOptimize (t : Tbl) : Tbl :=
+  let rows1 := trimRowsOpt t.rows.runs
+  let w := (rows1.map (fun r => minimizedWidth r.1)).foldl max 0
+  let rows2 := rows1.map (fun r => (forceWidth w r.1, r.2))
+  let colW := total t.cols.runs
+  let cols' := if colW > w then trimCols t.cols.runs (colW - w) else t.cols.runs
+  { cols := fresh cols', rows := fresh rows2 }
+
 /-- grid spec of rstrip: trailing all-empty rows dropped, trailing empty cells of every row
     dropped, columns shrunk to the widest remaining row (never widened) -/
 def gridRstrip (emp : Nat → Bool) (g : Grid) : Grid :=
